@@ -28,7 +28,7 @@ def _extension():
     has_reqs = sym.concretize(sym.bool("has_reqs"))
     # (version shape tied to the same choice bit: a plain X.Y.Z, or one with pre-release and build parts)
     ver = ext.Version(1, 0, 0, prerelease="rc.1", build="build.7") if has_reqs else ext.Version(1, 2, 3)
-    e = ext.Extension("my.ext", ver, runtime_reqs={"prelude", "other.ext"} if has_reqs else set())
+    e = ext.Extension("my.ext", ver, runtime_reqs={"prelude", "other.ext", "my.ext"} if has_reqs else set())   # (requirements may name the extension itself)
     nt = sym.concretize(sym.int("n_types", 0, P(1, 2)))
     tds = []
     for i in range(nt):
